@@ -483,10 +483,12 @@ theorem shapedAll_take (e : Ty) (cs : List Init) (n : Nat) (h : shapedAll e cs =
   exact h c (List.mem_of_mem_take hc)
 
 /-- the specification's object (a prefix of the parser's array) with element `i` materialised -/
-theorem At.inc {e : Ty} {cs : List Init} {m i : Nat} {ci : Init} (hoe : subOk e = true) (hall : shapedAll e cs = true)
-    (hi : i < m) (hci : cs[i]? = some ci) : At (.inc e) (.arr (cs.take m)) [i] e ci where
+theorem At.inc {e : Ty} {top : Bool} {cs : List Init} {m i : Nat} {ci : Init} (hoe : subOk e = true) (hall : shapedAll e cs = true)
+    (hi : i < m) (hci : cs[i]? = some ci) : At (.inc e) top (.arr (cs.take m)) [i] e ci where
   rootOk := hoe
-  shp := by simpa [shaped] using shapedAll_take e cs m hall
+  topOk := fun h => by simp [isFlexRoot] at h
+  pok := rfl
+  shp := by simpa [shapedR, shaped] using shapedAll_take e cs m hall
   sub := by simp [subTy_one, childTy]
   get := by
     apply getAt_one
@@ -526,7 +528,8 @@ theorem incLoop (elem : Ty) (hoe : subOk elem = true) (top : Bool) : ∀ (f f2 :
       simp only [hce] at h
       rw [ite_bind_pull] at h
       obtain ⟨toks1, hfirst, h⟩ := bind_eq_ok h
-      rw [initList_item _ _ _ _ _ _ _ _ hce, hfirst, ok_bind] at hres
+      replace hres := initList_item_imp _ _ _ _ _ _ _ _ hce hres hcl
+      rw [hfirst, ok_bind] at hres
       have hcs := countLoop_step hce hfirst hcnt
       clear hcnt
       -- one element, common to the positional and the designated case
@@ -584,11 +587,11 @@ theorem incLoop (elem : Ty) (hoe : subOk elem = true) (top : Bool) : ∀ (f f2 :
           have hsp2 := hsp
           rw [pregrow_desg] at hsp2
           rw [take_pad hnL hlt hzero] at hsp2
-          have hAt := At.inc (m := max n (a.toNat + 1)) hoe hall (by omega) hk
+          have hAt := At.inc (top := top) (m := max n (a.toNat + 1)) hoe hall (by omega) hk
           obtain ⟨hsa, himp⟩ := ih.desg (top := top) hAt hdsg
           obtain ⟨g1, h1'⟩ := himp g (tok.length + 1) fl
           have hsp3 := h1' res hsp2 hcl
-          obtain ⟨htt, hsm⟩ := consume_indep_desg (sm_of_shaped hoe hd (shaped_getAt _ _ _ _ _ hAt.shp hAt.sub hAt.get)) hdd hdsg
+          obtain ⟨htt, hsm⟩ := consume_indep_desg (sm_of_shaped hoe hd (hAt.shapedc)) hdd hdsg
           subst htt
           have hsd' : shaped elem d' = true := by
             have := (ind_all f2).designation elem tok d d (Sm.refl d)
@@ -702,11 +705,11 @@ theorem incLoop (elem : Ty) (hoe : subOk elem = true) (top : Bool) : ∀ (f f2 :
           have hk : cs[i]? = some ci := getChild_ok hci
           simp only [pathsOf, hdg, Bool.false_eq_true, ↓reduceIte, pure_bind'] at hres
           rw [pregrow_item _ _ _ _ i [[i]] (by simp) (by intro q hq; simp at hq; exact ⟨[], hq⟩), take_pad hnL hil hzero] at hres
-          have hAt := At.inc (m := max n (i + 1)) hoe hall (by omega) hk
+          have hAt := At.inc (top := top) (m := max n (i + 1)) hoe hall (by omega) hk
           obtain ⟨hsi, himp⟩ := ih.init2 (top := top) hAt hinit
           obtain ⟨g1, h1'⟩ := himp g fl
           have hsp3 := h1' res hres hcl
-          obtain ⟨htt, _⟩ := consume_indep_init2 (sm_of_shaped hoe hd (shaped_getAt _ _ _ _ _ hAt.shp hAt.sub hAt.get)) hdd hinit
+          obtain ⟨htt, _⟩ := consume_indep_init2 (sm_of_shaped hoe hd (hAt.shapedc)) hdd hinit
           subst htt
           have hsd' : shaped elem d' = true := ((sim_all f2).init2 (top := top) (At.root hoe hd) hdd).1
           exact step i ci ci' d' t g1 hil hk hsi hsd' h hc hsp3
@@ -794,15 +797,19 @@ theorem parse_spec_inc {f : Nat} {elem : Ty} {toks : List ITok} {p : Init × Lis
       · cases hs
     | _ => cases hs
 
-/-- **parser = 6.7.9** for every covered declared type (`tyOk`) -/
-theorem parse_spec_tyOk {f : Nat} {ty : Ty} {toks : List ITok} {p : Init × List ITok} {r : Result} (ho : tyOk ty = true)
+/-- **parser = 6.7.9** for every covered declared type (`tyOk`) without flexible array member (with: Lemmas/InitFlexLemmas.lean) -/
+theorem parse_spec_tyOk_noflex {f : Nat} {ty : Ty} {toks : List ITok} {p : Init × List ITok} {r : Result} (ho : tyOk ty = true)
+    (hnf : isFlexRoot ty = false)
     (hp : initializer2 f ty toks (newInit ty true) = .ok p) (hs : initFull ty toks = .ok r) (hc : r.fl.clean = true) :
     p.1 = r.obj ∧ p.2 = r.rest := by
   cases ty with
   | inc e => exact parse_spec_inc (by simpa [tyOk] using ho) hp hs hc
   | scalar sz k => exact parse_spec_subOk (by simpa [tyOk] using ho) hp hs hc
   | array e n => exact parse_spec_subOk (by simpa [tyOk] using ho) hp hs hc
-  | struct ms sz fl => exact parse_spec_subOk (by simpa [tyOk] using ho) hp hs hc
+  | struct ms sz fl =>
+    cases fl with
+    | false => exact parse_spec_subOk (by simpa [tyOk] using ho) hp hs hc
+    | true => simp [isFlexRoot] at hnf
   | union ms sz fl => exact parse_spec_subOk (by simpa [tyOk] using ho) hp hs hc
 
 
